@@ -183,6 +183,53 @@ def check_circuit(recipe, env, maxph, acc):
     acc.sample({"recipe": name, "ops": recipe["ops"], "post_selections": [p[0] for p in post_selections(nv)]}, limit=2)
 
 
+def check_coarse_threshold(recipe, env, acc, thr=0.04):
+    """The same relation under a user-chosen (coarse) global truncation threshold: both objects read the live setting,
+    so for a lossless circuit the QuickSampler still equals the Sampler conditioned on the heralds, renormalised."""
+    c, _ = build(recipe, env)
+    if c.U_full.shape[0] != c.n_modes:
+        return
+    nv = c.input_modes
+    hout = c.heralds["output"]
+    hmodes = sorted(hout)
+    old = lw.settings.sampler_probability_threshold
+    lw.settings.sampler_probability_threshold = thr
+    try:
+        for i in ref_fock.basis(nv, 2):
+            d = emu.Sampler(c, lw.State(list(i))).probability_distribution
+            for pc in (True, False):
+                case = {"scenario": "coarse_threshold", "recipe": recipe, "input": i, "photon_counting": pc,
+                        "threshold": thr, "seed": env.seed}
+                acc.tick("executions"); acc.tick("transitions")
+                cond = {}
+                for st, p in d.items():
+                    full = tuple(st.s)
+                    if all(full[m] == n for m, n in hout.items()):
+                        vis = ref_fock.remove_modes(full, hmodes)
+                        if sum(vis) == 2 and (pc or max(vis) <= 1):
+                            cond[vis] = cond.get(vis, 0.0) + float(p)
+                tot = sum(cond.values())
+                try:
+                    qd = {tuple(s_.s): float(p) for s_, p in
+                          emu.QuickSampler(c, lw.State(list(i)), photon_counting=pc).probability_distribution.items()}
+                except Exception as e:  # noqa: BLE001
+                    if tot > 1e-6:
+                        acc.violation("quick_sampler_refuses", case, {"error": repr(e), "accepted_total": tot})
+                    continue
+                if tot <= 1e-6:
+                    continue
+                for o in set(qd) | set(cond):
+                    if abs(qd.get(o, 0.0) - cond.get(o, 0.0) / tot) > 1e-8:
+                        acc.violation("quick_sampler_vs_sampler", case,
+                                      {"output": o, "impl": qd.get(o, 0.0), "ref": cond.get(o, 0.0) / tot})
+                        break
+                acc.state("coarse", recipe["name"], i, pc)
+                if len(cond) < len([1 for st in d]) and len(cond) > 1:
+                    acc.nontriv("coarse", recipe["name"], i, pc)
+    finally:
+        lw.settings.sampler_probability_threshold = old
+
+
 def run(tier, seed):
     env = Env(seed)
     fam = emulator_family(env, tier)
@@ -194,6 +241,8 @@ def run(tier, seed):
         acc = kernel.Acc()
         for rc in recipes:
             check_circuit(rc, env, maxph[rc["n"]], acc)
+            if rc["n"] >= 3:
+                check_coarse_threshold(rc, env, acc)
         return acc
 
     acc = kernel.pmap(shard_fn, kernel.interleave(fam, kernel.NPROC * 3))
@@ -204,6 +253,7 @@ def run(tier, seed):
                 "Analyzer array == Sampler probability of the heralded output, performance == mean accepted total, "
                 "error_rate == 1 - mean(expected&accepted/accepted), QuickSampler == Sampler conditioned and "
                 "renormalised, |Simulator|^2 == Sampler (lossless); none may refuse a circuit the others accept. "
+                "Lossless circuits on >= 3 modes again with settings.sampler_probability_threshold = 0.04. "
                 "distinct_nontrivial = QuickSampler configurations whose conditioned support has > 1 state.",
         "exhaustive": True,
         "bounds": {"circuits": len(fam), "max_visible_photons": maxph},
@@ -214,4 +264,7 @@ def run(tier, seed):
 
 def replay(w, acc):
     case = w["case"]
+    if case.get("scenario") == "coarse_threshold":
+        check_coarse_threshold(case["recipe"], Env(case.get("seed", 0)), acc, case.get("threshold", 0.04))
+        return
     check_circuit(case["recipe"], Env(case.get("seed", 0)), 2, acc)
